@@ -345,21 +345,53 @@ def gen_options(rng):
     return o
 
 
+# Names of the directories / pages of the static page tree.  The property quantifies over every page depth, and a page
+# is identified by its whole path, not by the name of its directory or file: so names repeat at different depths
+# (`page/examples/` and `page/dev/examples/`, `page/sub/sub/`), and some are the names FORD itself uses for directories
+# of the output (`module/`, `lists/`, `page/`, the default output directory `doc`).
+PAGE_DIR_NAMES = ["sub", "other", "deeper", "examples", "dev", "module", "lists", "proc", "page", "doc", "media", "src"]
+PAGE_LEAF_NAMES = ["first", "leaf", "last", "notes"]
+
+
 def gen_pages(rng):
-    """Static page tree: {relative path: {"title", "links"}}; nested up to depth 3."""
+    """Static page tree: {relative path: {"title", "links"}}; nested up to depth 3; directory and page names may repeat
+    at different places of the tree."""
+    used = []
+
+    def dname(avoid=()):
+        # a name seen before (elsewhere in the tree) with probability 0.4, else any name of the pool
+        cand = [n for n in (used if used and rng.random() < 0.4 else PAGE_DIR_NAMES) if n not in avoid]
+        n = rng.choice(cand or [x for x in PAGE_DIR_NAMES if x not in avoid])
+        used.append(n)
+        return n
+
+    def leaf():
+        return rng.choice(PAGE_LEAF_NAMES)
+
     pages = {"index.md": {"title": "Notes"}}
     if rng.random() < 0.7:
-        pages["first.md"] = {"title": "First"}
+        pages[f"{leaf()}.md"] = {"title": "First"}
+    a = None
     if rng.random() < 0.6:
-        pages["sub/index.md"] = {"title": "Sub"}
+        a = dname()
+        pages[f"{a}/index.md"] = {"title": "Sub"}
         if rng.random() < 0.6:
-            pages["sub/leaf.md"] = {"title": "Leaf"}
+            pages[f"{a}/{leaf()}.md"] = {"title": "Leaf"}
         if rng.random() < 0.5:
-            pages["sub/deeper/index.md"] = {"title": "Deeper"}
+            b = dname()
+            pages[f"{a}/{b}/index.md"] = {"title": "Deeper"}
             if rng.random() < 0.5:
-                pages["sub/deeper/last.md"] = {"title": "Last"}
-    if rng.random() < 0.3:
-        pages["other/index.md"] = {"title": "Other"}
+                pages[f"{a}/{b}/{leaf()}.md"] = {"title": "Last"}
+    if rng.random() < 0.35:
+        c = dname(avoid=(a,))
+        pages[f"{c}/index.md"] = {"title": "Other"}
+        if rng.random() < 0.4:
+            pages[f"{c}/{leaf()}.md"] = {"title": "Other leaf"}
+        if rng.random() < 0.4:
+            d = dname()
+            pages[f"{c}/{d}/index.md"] = {"title": "Other deeper"}
+            if rng.random() < 0.5:
+                pages[f"{c}/{d}/{leaf()}.md"] = {"title": "Other last"}
     return pages
 
 
@@ -536,7 +568,12 @@ def gen_links(rng, P):
             # appends a "Read more" link) and doc comments with an explicit `summary:` metadata line
             "para_rate": rng.choice([0.0, 0.25, 0.5, 0.8]), "summary_rate": rng.choice([0.0, 0.0, 0.1, 0.3]),
             # doc comments that are a bullet list only (the converted documentation has no <p> paragraph)
-            "list_rate": rng.choice([0.0, 0.0, 0.1, 0.25])}
+            "list_rate": rng.choice([0.0, 0.0, 0.1, 0.25]),
+            # Markdown constructs whose definitions the converter keeps in a table of its own until it is reset
+            # (footnotes: every definition in the table is listed below the converted text with a back-link to the
+            # place that refers to it): in doc comments, static pages and the front page text; `fn_first_rate` = share
+            # of them whose reference sits in the first paragraph (the part that becomes the summary)
+            "fn_rate": rng.choice([0.0, 0.0, 0.15, 0.4]), "fn_first_rate": rng.choice([0.0, 0.0, 0.3])}
 
 
 # ----------------------------------------------------------------- rendering
@@ -550,6 +587,10 @@ class _Ctx:
         self.para_rate = P["links"].get("para_rate", 0.0)
         self.summary_rate = P["links"].get("summary_rate", 0.0)
         self.list_rate = P["links"].get("list_rate", 0.0)
+        self.fn_rate = P["links"].get("fn_rate", 0.0)
+        self.fn_first_rate = P["links"].get("fn_first_rate", 0.0)
+        self.fn_n = 0
+        self.fn_first: list[str] = []   # labels referred to in the first paragraph of their text
         self.pool = entity_index(P)
         self.mdpool = md_link_pool(P)
         self.used: dict[str, int] = {}
@@ -569,8 +610,18 @@ class _Ctx:
             lk, cls = r.choice(self.mdpool)
             self.used[cls] = self.used.get(cls, 0) + 1
             txt += f" and {lk}"
+        note, note_first = None, False
+        if r.random() < self.fn_rate:
+            self.fn_n += 1
+            note, note_first = f"fn{self.fn_n}", r.random() < self.fn_first_rate
+            self.used["(footnote)"] = self.used.get("(footnote)", 0) + 1
+            if note_first:
+                txt += f" with a note[^{note}]"
+                self.fn_first.append(note)
         lines = [f"{indent}!! {txt}"]
-        if r.random() < self.list_rate:
+        if note and not note_first:
+            lines += [f"{indent}!!", f"{indent}!! remark with a note[^{note}] in a later paragraph"]
+        if not note and r.random() < self.list_rate:
             self.used["(list-only doc)"] = self.used.get("(list-only doc)", 0) + 1
             lines = [f"{indent}!! * {txt}", f"{indent}!! * second point about {what}"]
         elif r.random() < self.para_rate:
@@ -583,6 +634,8 @@ class _Ctx:
                     self.used[cls] = self.used.get(cls, 0) + 1
                     more += f" see {lk}"
                 lines += [f"{indent}!!", f"{indent}!! {more}"]
+        if note:
+            lines += [f"{indent}!!", f"{indent}!! [^{note}]: text of note {note}"]
         if r.random() < self.summary_rate:
             # metadata block in front of the documentation (ends at the first blank doc line)
             self.used["(summary metadata)"] = self.used.get("(summary metadata)", 0) + 1
@@ -870,6 +923,11 @@ def render(P):
             for lk, cls in page_asset_links(P, rel):
                 cx.used[cls] = cx.used.get(cls, 0) + 1
                 body.append(f"Local {lk}.")
+            if cx.rng.random() < cx.fn_rate:
+                cx.fn_n += 1
+                cx.used["page>(footnote)"] = cx.used.get("page>(footnote)", 0) + 1
+                body.append(f"Remark with a note[^fn{cx.fn_n}].")
+                body.append(f"[^fn{cx.fn_n}]: text of note fn{cx.fn_n}")
             pages[rel] = "\n".join(meta) + "\n\n" + "\n\n".join(body) + "\n"
         pa = (P.get("assets") or {}).get("pages")
         if pa:
@@ -939,7 +997,11 @@ def render(P):
             lk, cls = cx.rng.choice(cx.mdpool)
             cx.used["front>" + cls] = cx.used.get("front>" + cls, 0) + 1
             text += f" Also {lk}."
-    return {"files": files, "extra": extra, "pages": pages, "options": opts, "text": text + "\n",
+    if cx.rng.random() < cx.fn_rate:
+        cx.fn_n += 1
+        cx.used["front>(footnote)"] = cx.used.get("front>(footnote)", 0) + 1
+        text += f"\n\nRemark with a note[^fn{cx.fn_n}].\n\n[^fn{cx.fn_n}]: text of note fn{cx.fn_n}"
+    return {"files": files, "extra": extra, "pages": pages, "options": opts, "text": text + "\n", "fn_first": list(cx.fn_first),
             "media": P["media"], "css": o["css"], "used": cx.used,
             "root_files": {x: b"user file " + x.encode() for x in (A.get("favicon"), A.get("mathjax")) if x}}
 
